@@ -67,6 +67,7 @@ type World struct {
 	closed    bool // local Close called
 	down      bool // peer shut the association down (marker queued)
 	dialed    bool
+	nDial     int
 }
 
 var W *World
@@ -147,7 +148,9 @@ func (w *World) fault(kind string, k int) *scn.Fault {
 // Dial is DialSCTP.
 func (w *World) Dial(laddr, raddr string, lport, rport int) error {
 	w.Log(Event{Ev: "dial", UE: -1, Info: map[string]interface{}{"laddr": laddr, "lport": lport, "raddr": raddr, "rport": rport}})
-	if w.fault("dial_fail", 0) != nil {
+	w.nDial++
+	if f := w.fault("dial_fail", 0); f != nil && (f.Class != "first" || w.nDial == 1) {
+		// class "first": only the first attempt of the run is refused, a second one would succeed
 		w.Log(Event{Ev: "fault", UE: -1, Fault: "dial_fail"})
 		return syscall.ECONNREFUSED
 	}
